@@ -2,3 +2,4 @@
 import SasLexer.Lex.Main
 import SasLexer.Spec.Basic
 import SasLexer.Properties.C03
+import SasLexer.Properties.C20
